@@ -69,9 +69,16 @@ EntryPoints(p) == {EpOf(k) : k \in EntryPointKinds(p)}
 (* An elaborated program carries, per method, the variant identifier and the   *)
 (* wire name, and per part the published (sorted) name list of each enum kind. *)
 (* The run-time machine (Runtime.tla) works on elaborated programs only.       *)
+(* a number that depends on the name only: choices made per handler (which value, which malformed bodies)  *)
+(* are derived from it, so that they do not depend on the order of declarations                          *)
+CharCode(c) == CASE c = "a" -> 1 [] c = "b" -> 2 [] c = "1" -> 3 [] c = "_" -> 4 [] c = "o" -> 2 [] c = "r" -> 1 [] OTHER -> 5
+RECURSIVE NameHashFrom(_, _)
+NameHashFrom(n, i) == IF i > Len(n) THEN 0 ELSE CharCode(n[i]) * i + NameHashFrom(n, i + 1)
+NameHash(n) == NameHashFrom(n, 1)
+
 ElabMethod(m, code) ==
     [name |-> Str(m.name), name_c |-> m.name, kind |-> m.kind, args |-> m.args, outcome |-> m.outcome,
-     code |-> code, variant |-> Str(Variant(m.name)), wire |-> Str(Wire(m.name)),
+     code |-> code, h |-> NameHash(m.name), variant |-> Str(Variant(m.name)), wire |-> Str(Wire(m.name)),
      near |-> Str(Near(m.name)), shape_name |-> IsShapeName(m.name), resp |-> m.resp, explicit |-> m.explicit, sig |-> m.sig, ret |-> m.ret]
 ElabPart(part, base) ==
     [id |-> part.id,
